@@ -70,6 +70,28 @@ def one_query_dir(ctx, res, rng, k):
             return None
         url = f"sqlite:///{zdir}/.zorg/zorg.db"
         rows = {r["zid"]: r for r in G.dump_index(zdir)}
+        # the text form `note move` writes (inherited tags / properties made explicit after the ZID) compiles back to the note
+        from zorg.service import note_utils
+        from zorg.storage.sql import SQLSession
+
+        with SQLSession(zdir, url) as session:
+            moved_texts = []
+            for zid, r in rows.items():
+                n = session.repo.get_note_by_zid(zid)
+                if n is not None:
+                    moved_texts.append((zid, note_utils._add_hidden_metadata(n).to_string()))
+        for zid, text in moved_texts:
+            back = ZC.impl_compile(ctx.tmp / "b", "p.zo", "# moved\n\n" + text, TODAY)
+            res.evaluations += 1
+            r = rows[zid]
+            ok = "exc" not in back and not back["errors"] and len(back["notes"]) == 1
+            if ok:
+                n = back["notes"][0]
+                ok = n["zid"] == zid and n["kind"] == r["kind"] and n["cdate"] == r["cdate"] and all(set(r[k]) <= set(n[k]) for k in ("areas", "contexts", "people", "projects"))
+            if not ok:
+                res.failures.append(C.Failure(f"the text `note move` writes for {zid} does not compile back to that note: {text!r} -> {str(back.get('notes', back))[:300]}",
+                                              {"kind": "moved_text", "zid": zid, "text": text, "orig": r}))
+                break
         for order in ("none", "alpha", "create modify", "type priority", "priority", "modify"):
             q = f"S note W o | x | ~ | < | > | - O {order} G none"
             out = swog.execute(zdir, url, q)
